@@ -14,7 +14,7 @@ for t in targets:
             if o.verdict != 'discharged' or '-v' in sys.argv: print('  ', o.verdict, o.name, o.backend, o.detail, o.model or '')
         continue
     con = w.reg.contracts[t]
-    for variant in (con.variants or [None]):
+    for variant in con.all_variants():
         r = verify_function(w, con, variant)
         print(f'== {t} [{variant}] paths={r.paths} (normal {r.normal_paths}, exc {r.exc_paths}) obligations={len(r.obligations)} '
               f'time={r.seconds:.2f}s solver={r.solver_seconds:.2f}s queries={r.queries} vac={r.vacuity}')
